@@ -1,7 +1,7 @@
 (* C08 — losing the connection surfaces promptly as a scrapli error.
    This file contains only the property theorems (closed by [exact] from proofs/ConnLoss_Proofs.v, instantiated with
    the configuration generated from the current source tree) and Print Assumptions. *)
-From Verif Require Import Bytes ConnLoss ConnLoss_Proofs.
+From Verif Require Import Bytes ConnLoss ConnLoss_Proofs ConnLossNeg ConnLossNeg_Proofs.
 From Gen Require Import Gen_ConnLoss.
 
 (* The generated configuration (exception tables around every low-level call of the five transports, guards,
@@ -88,6 +88,44 @@ Proof.
                               (open_is_scrapli gen_cfg_strict (proj1 (proj2 C08_generated_config_ok)) tr evs H)).
 Qed.
 Print Assumptions C08_open_is_scrapli.
+
+(* the writes INSIDE a read.  Both Telnet transports answer the server's option requests from within read()
+   (_handle_control_chars_response).  The reply-site facts generated from the source (gen_ncf: the try/except tables
+   between the low-level send of a reply and the caller of read() -- those of the transport's own write() when the
+   reply goes through it --, whether the handler's per-byte guard is a liveness probe) pass the check: every
+   exception the socket's send can raise for a reply ends as a ScrapliException subclass (an asyncio StreamWriter
+   raises none for a lost connection). *)
+Theorem C08_negotiation_config_ok :
+  neg_ok gen_cfg (gen_ncf Telnet) Telnet = true /\ neg_ok gen_cfg (gen_ncf ATelnet) ATelnet = true.
+Proof. split; vm_compute; reflexivity. Qed.
+Print Assumptions C08_negotiation_config_ok.
+
+(* read() over an opening burst of any number k of option requests, on both Telnet transports, for EVERY outcome of
+   every reply's send, every liveness-probe answer in between (sync telnet probes once per byte) and whatever the
+   next low-level read brings: read() returns, waits (the timeout's business) or raises a ScrapliException subclass
+   -- never a raw OSError --, and leaves the connection in a state the theorems above apply to (so the operations
+   that follow are covered by C08_loss_is_scrapli). *)
+Theorem C08_negotiation_replies :
+  forall tr k st e rs r st' e' rs',
+    is_telnet tr = true -> inv tr st -> env_ok tr e = true -> neg_env_ok tr st e = true -> rs_ok tr rs = true ->
+    t_read_neg gen_cfg (gen_ncf tr) tr k st e rs = (r, st', e', rs') ->
+    xgood gen_cfg r /\ inv tr st' /\ env_ok tr e' = true /\ rs_ok tr rs' = true /\ mono st st' /\
+    (attached st = false -> r = XExc SNotOpened).
+Proof. exact (telnets_read_neg_spec gen_cfg gen_ncf (proj1 C08_generated_config_ok) C08_negotiation_config_ok). Qed.
+Print Assumptions C08_negotiation_replies.
+
+(* non-vacuity: the device sends two option requests and hangs up; the first reply leaves, the second meets EPIPE:
+   read() raises ScrapliConnectionError (31), isalive() is False, the next read() ScrapliConnectionNotOpened (32: the
+   Socket's truth value), a get_prompt ScrapliConnectionError again.  And a bare send at the reply site would not
+   pass the check. *)
+Theorem C08_example_negotiation :
+  obs_codes (run_neg_ops gen_cfg (gen_ncf Telnet) Telnet 300 300 2
+      [OpRead; OpChan [IWrite; IRead (m_contains [35])]]
+      st_open (mkEnv [WOk; WRaise EBrokenPipe] [] []) [REmpty])
+    = [((2, 31), (1, 0)); ((2, 32), (1, 0)); ((2, 31), (1, 0))]
+  /\ neg_ok gen_cfg (mkNcfg false []) Telnet = false.
+Proof. split; [vm_compute; reflexivity | exact (neg_ok_bare_fails gen_cfg (proj1 C08_generated_config_ok))]. Qed.
+Print Assumptions C08_example_negotiation.
 
 (* the full statement — the same without "timeout_ops > 0" — is false: timeout_ops = 0 means no timeout, and a
    silent peer then hangs the operation (documented as outside the property) *)
